@@ -138,6 +138,9 @@ CheckProbe(line, ev) ==
   /\ IF SeqToSet(ev.opt.allow) = Routable(ev) THEN TRUE ELSE Mis(line, "C17.options", 1, ev.opt.allow)
   /\ IF SeqToSet(ev.opt.acam) = Routable(ev) THEN TRUE ELSE Mis(line, "C17.options", 2, ev.opt.acam)
   /\ IF SeqToSet(ev.opt.allowAcc) = Routable(ev) THEN TRUE ELSE Mis(line, "C17.options", 3, ev.opt.allowAcc)
+  \* behind a CORS filter that passed the (non-preflight) OPTIONS request on
+  /\ IF "acamCors" \in DOMAIN ev.opt => SeqToSet(ev.opt.acamCors) = Routable(ev) THEN TRUE
+     ELSE Mis(line, "C17.options", 4, ev.opt.acamCors)
   /\ IF ev.opt.ran = 0 /\ ~ev.opt.panic THEN TRUE ELSE Mis(line, "C17.alone", 1, <<ev.opt.ran>>)
   /\ IF ev.fprobes = ev.nprobes THEN TRUE ELSE Mis(line, "C17.alone", 2, ev.fprobes)
 
